@@ -77,6 +77,7 @@ class Contract:
         self.return_hints = []     # lemma instances assumed at return points (locals and `result` visible)
         self.yield_view = None     # generators yielding objects: lambda obj: tuple of its fields recorded in `yielded`
         self.lib_arith = False
+        self.yield_hints = []
         self.opaque_here = []      # spec functions not to unfold in this contract's obligations
         self.unfold_here = []      # lazily unfolded spec functions (verifier.LAZY_SPECS) to unfold here
         self.loop_hints = {}       # loop key -> [lemma-instance lambdas] assumed at the head of the body
@@ -225,6 +226,8 @@ def load_file(path, modname):
                 c.yield_view = _lam(val)
             elif nm == "uses_locals":
                 c.uses_locals = _lit(val)
+            elif nm == "yield_hints":
+                c.yield_hints = [_lam(e) for e in val.elts]
             elif nm == "lib_arith":
                 c.lib_arith = _lit(val)       # datetime / timedelta operands of + and - are expected in this function
             elif nm == "opaque_here":
